@@ -1,4 +1,4 @@
-import SockModel.Model.FdLemmas
+import SockModel.Spec.C14
 /-!
 # C14  OS failures become exceptions and leak nothing
 
@@ -11,30 +11,9 @@ every program of the scenario set `Prog` / `Consumer` / `driverStep` of `Model/F
 -/
 namespace SockModel.Fd
 
-theorem Prog.sp (p : Prog) : Sp p.run (fun a new f => a = new ∧ f = false) := by
-  have hn : ∀ {m : M (List Fd)}, Sp m Nothing → Sp m (fun a new f => a = new ∧ f = false) :=
-    fun h => h.weaken (by intro a n f ⟨h1, h2, h3⟩; exact ⟨by rw [h1, h2], h3⟩)
-  cases p with
-  | addrCtor => exact hn Sp_addrCtor
-  | addrPrint => exact hn Sp_addrPrint
-  | udpCtor => exact Sp_udpCtor
-  | tcpCtor => exact Sp_tcpCtor
-  | acceptorCtor => exact Sp_acceptorCtor
-  | driverCtor => exact Sp_driverCtor
-  | udpSendTo fd => exact hn (Sp_udpSendTo fd)
-  | udpReceiveFrom fd => exact hn (Sp_udpReceiveFrom fd)
-  | tcpSend fd more => exact hn (Sp_tcpSend fd more)
-  | tcpReceive fd => exact hn (Sp_tcpReceive fd)
-  | query c fd => exact hn (Sp_query c fd)
-  | acceptorListen ready fd => exact Sp_acceptorListen ready fd
-  | driverStop fd => exact hn (Sp_driverStop fd)
+theorem Prog.sp (p : Prog) : Sp p.run (fun a new f => a = new ∧ f = false) := Prog.keepsLedger p
 
-theorem Consumer.consumes (c : Consumer) (fd : Fd) : Consumes fd (c.run fd) := by
-  cases c with
-  | buffered q => exact Consumes_bufferedCtor q fd
-  | tcpAsync => exact Consumes_tcpAsyncAttach fd
-  | acceptorAsync => exact Consumes_acceptorAsyncAttach fd
-  | udpAsync => exact Consumes_udpAsyncAttach fd
+theorem Consumer.consumes (c : Consumer) (fd : Fd) : Consumes fd (c.run fd) := Consumer.takesOver c fd
 
 /-- "If any operating-system call made on behalf of a constructor or of an API call documented to
 throw fails, the failure is reported by an exception ... never by ... a bogus success." -/
@@ -178,6 +157,21 @@ theorem usable_after (p q : Prog) (o o' : Oracle) (L : Ledger) (hL : WF L) (e : 
     obtain ⟨new, hl, ha, _⟩ := h2
     subst ha
     simp only; rw [hl, h]
+
+/-- **The run-time oracle of `./check C14` is a theorem of the model** (`Spec/C14.lean`): for every fault
+oracle and every history (rounds of quiet set-up constructors, constructors / operations, consuming
+constructors and driver steps on arbitrary driver states, teardown of everything held) the observations the
+model produces - every call with its answer, every close, the events, the outcome of every API call, the
+ledger line - are accepted by the predicate `Spec.specRun` that the check evaluates on the implementation:
+"the failure is reported by an exception ... carrying the OS error ... or, inside the driver, through the
+socket's disconnect handler, the send future, or an exception out of Step - never by ... a bogus success.
+Afterwards ... every descriptor the library opened has been closed exactly once (none leaked, none closed
+twice, none that it does not own)".  `Round.ok` is decidable: `query` is used with a socket call; the scenario
+flag `discards` is truthful (`Spec.Op.ok`; both parts are shown necessary by `example`s in `Spec/C14.lean`). -/
+theorem spec_holds_on_model (ctx : Spec.Ctx) (o : Oracle) (history : List Spec.Round)
+    (hok : ∀ r ∈ history, r.ok ctx.discards = true) :
+    ∃ s, Spec.specRun ctx {} (Spec.modelTrace o {} history) = .ok s :=
+  Spec.model_satisfies_spec ctx o history hok
 
 /-! Non-vacuity: concrete oracles on concrete programs. -/
 
